@@ -107,6 +107,42 @@ theorem C20_ids_unique (c : WCfg) (t : WTempl) : ((gtemplOf c t).locs.map (·.id
   rw [h]
   exact List.Pairwise.map _ (fun a b hab heq => hab (idOf_injective (Option.some.inj heq))) List.nodup_range
 
+
+/-- **C20, endpoints resolve.**  Among the location elements of a written template, the ones carrying the id that an edge
+    endpoint `loc n` is written with are exactly the element of the `n`-th location of the document: an endpoint can never be
+    read back as a different location (e.g. after a renumbering of ids) and never dangles. -/
+theorem C20_endpoint_resolves (c : WCfg) (t : WTempl) (n : Nat) (hn : n < t.locs.length) (g : GLoc) :
+    (g ∈ (gtemplOf c t).locs ∧ g.id = endId c (.loc n)) ↔ g = glocOf (t.locs[n], n) := by
+  simp only [gtemplOf, List.mem_map, endId]
+  constructor
+  · rintro ⟨⟨⟨l, i⟩, hm, rfl⟩, hid⟩
+    have hi : i = n := idOf_injective (Option.some.inj (by simpa [glocOf] using hid))
+    subst hi
+    have h1 := List.mk_mem_zipIdx_iff_getElem?.mp hm
+    rw [List.getElem?_eq_getElem hn] at h1
+    rw [← Option.some.inj h1]
+  · rintro rfl
+    refine ⟨⟨(t.locs[n], n), ?_, rfl⟩, by simp [glocOf]⟩
+    exact List.mk_mem_zipIdx_iff_getElem?.mpr (List.getElem?_eq_getElem hn)
+
+/-- **C20, endpoints in range.**  In a written-and-read template every edge whose endpoints are locations of the template
+    refers to ids that occur on a location element, and the init reference does too. -/
+theorem C20_refs_in_range (c : WCfg) (t : WTempl) (e : WEdge) (he : e ∈ t.edges) (n m : Nat)
+    (hs : e.src = .loc n) (hd : e.dst = .loc m) (hn : n < t.locs.length) (hm : m < t.locs.length) :
+    ∃ ge ∈ (gtemplOf c t).edges, ge = gedgeOf c e ∧
+      ge.src ∈ (gtemplOf c t).locs.map (·.id) ∧ ge.tgt ∈ (gtemplOf c t).locs.map (·.id) := by
+  refine ⟨gedgeOf c e, List.mem_map.mpr ⟨e, he, rfl⟩, rfl, ?_, ?_⟩
+  · exact List.mem_map.mpr ⟨glocOf (t.locs[n], n), ((C20_endpoint_resolves c t n hn _).mpr rfl).1, by simp [gedgeOf, hs, endId, glocOf]⟩
+  · exact List.mem_map.mpr ⟨glocOf (t.locs[m], m), ((C20_endpoint_resolves c t m hm _).mpr rfl).1, by simp [gedgeOf, hd, endId, glocOf]⟩
+
+/-- **C20, counts.**  Outside the exception shapes the written tree has exactly one template element per template, one
+    location element per location and one transition per edge, in the document's order. -/
+theorem C20_counts (c : WCfg) (d : WDoc) (h : docShapes c d = []) :
+    ∃ g, (writeXml c d).map readGraph = some g ∧ g.length = d.templs.length ∧
+      g.map (fun t => (t.locs.length, t.edges.length)) = d.templs.map (fun t => (t.locs.length, t.edges.length)) := by
+  refine ⟨graphOf c d, C20_partial c d h, by simp [graphOf], ?_⟩
+  simp [graphOf, gtemplOf, List.map_map, Function.comp_def]
+
 /-! ### the exception shapes are real: a witness for each -/
 
 def wEdgeBase : WEdge :=
